@@ -68,7 +68,7 @@ func init() {
 		Cases: func(seed uint64, tier string) []Case {
 			ns, nt, nb := 700, 60, 20
 			if !quick(tier) {
-				ns, nt, nb = 15000, 800, 300
+				ns, nt, nb = 10000, 400, 200
 			}
 			var cs []Case
 			for i := 0; i < ns; i++ {
